@@ -371,7 +371,8 @@ def r_decor(prog, tier):
                     if not keys:
                         unknown = True
                         continue
-                    excluded = any((fa[0], fa[1], fa[2], not fa[3]) in here for fa in keys)
+                    excluded = any((fa[0], fa[1], fa[2], not fa[3]) in here for fa in keys) \
+                        or ('truthy', kw, False) in here or ('cmp', 'len(%s)' % kw, '==', '0') in here
                     if not excluded:
                         lost.append((sorted(fields), [fa[2] for fa in keys if fa[3]]))
             if lost:
